@@ -221,3 +221,12 @@ package thrift_reflection
 //@   ensures result == callret("MustUnmarshal", 0) && callarg("MustUnmarshal", 0) == old(builder.Bytes)
 //@   ensures callarg("defaultGlobalDescriptor.checkDuplicateAndRegister", 0) == result
 //@   ensures callarg("defaultGlobalDescriptor.registerGoTypes", 0) == result && callarg("defaultGlobalDescriptor.registerGoTypes", 1) == old(builder.GoTypes)
+
+// Typedef navigation as the field-mask library uses it (C14); lookups go through the global registry: trusted.
+//@ func (td *TypeDescriptor) IsTypedef() bool
+//@   trusted
+//@   pure
+//@ func (td *TypeDescriptor) GetTypedefDescriptor() (*TypedefDescriptor, error)
+//@   trusted
+//@   pure
+//@   ensures td.IsTypedef() ==> result0 != nil && result1 == nil
